@@ -31,7 +31,7 @@ OUTSIDE = ("iteration counts beyond the bounds for mirror descent (its (theta, B
            "runs exercise the only places the pair can go out of sync: the exits); float rounding; the 1e-100 regulariser in Factor.log (taken as 0)")
 ASSUMPTIONS = ["real-number semantics; exp abstracted as a positive function with exp(a)exp(b)=exp(a+b) built in", "noise scales > 0, total > 0, step size > 0",
                "query patterns are enumerated; y, sigma, total, step size are symbolic", "eigsh runs concretely on the concrete query patterns"]
-SHIMS_USED = ["np.zeros/np.ones", "logsumexp", "exp", "float", "sparse @ object-array", "lsmr", "np.allclose", "1e-100 / nextafter(0,1) regularisers"]
+SHIMS_USED = ["np.zeros/np.ones", "logsumexp", "exp", "float", "sparse @ object-array", "lsmr", "eigsh", "np.allclose", "1e-100 / nextafter(0,1) regularisers"]
 
 
 def configs(tier, seed):
@@ -45,6 +45,8 @@ def configs(tier, seed):
         for fam in estim.FAMS:
             for solver, iters, cut in plan:
                 heavy = (solver == "IG_symL") or (solver == "MD_ls" and cut == 25) or iters >= 3 or (sizes != (2, 2, 2) and iters >= 2)
+                if tier == "quick" and solver in ("RDA", "IG") and iters >= 2 and fam not in ("oneway", "single", "empty"):
+                    continue      # the mixtures of two BP outputs on overlapping cliques are in the thorough tier (minutes each)
                 cfgs.append(dict(name="est:%s:%s:%s:i%d:c%s" % (fam, sizes, solver, iters, cut), kind="estimate", fam=fam, sizes=sizes,
                                  solver=solver, iters=iters, cut=cut, total="given", core=not heavy, cost=30 if heavy else 5,
                                  timeout=900 if heavy else 300))
@@ -52,9 +54,9 @@ def configs(tier, seed):
             for fam in ("two_overlap", "oneway"):
                 cfgs.append(dict(name="est:%s:%s:MD_step:i1:total_omitted" % (fam, sizes), kind="estimate", fam=fam, sizes=sizes,
                                  solver="MD_step", iters=1, cut=None, total="omitted", cost=5))
-    cats = [("abc", (2, 3, 2), CAT3), ("abcd", (2, 2, 2, 2), CAT4)]
+    cats = [("abc", (2, 3, 2), CAT3), ("abcd", (2, 2, 2, 2), {k: CAT4[k] for k in ("mid_first4", "cycle4", "star4", "pair_pair", "three_way_sep")})]
     if tier == "thorough":
-        cats += [("abc", (1, 2, 3), CAT3), ("abcd", (2, 3, 2, 2), CAT4), ("abcde", (2, 2, 2, 2, 2), CAT5)]
+        cats += [("abc", (1, 2, 3), CAT3), ("abcd", (2, 2, 2, 2), CAT4), ("abcd", (2, 3, 2, 2), CAT4), ("abcde", (2, 2, 2, 2, 2), CAT5)]
     for attrs, sizes, cat in cats:
         for sname, cliques in cat.items():
             for zm in ("none", "some"):
